@@ -37,7 +37,7 @@ ASSUMPTIONS = [
     "revision-5/6 passwords are limited to strings on which SASLprep reduces to NFKC; R<=4 *correct* passwords are Latin-1",
     "V4 files use the same crypt filter for strings and streams (the library reports others as unsupported, a documented outcome)",
 ]
-PROBES = ["right password after a wrong one, same parser", "cross-reference table unusable (body scan)", "V1R2 RC4-40", "V2R3 RC4", "V4R4 V2", "V4R4 AESV2", "V4R4 Identity", "V5R5 AESV3", "V5R6 AESV3", "owner password differs", "empty user password", "non-ASCII password", "long password", "no ID", "EncryptMetadata false", "object stream", "generation > 0", "object number above 65535", "string inside stream dictionary", "eviction happened", "wrong password non-Latin-1", "two encrypted documents read alternately"]
+PROBES = ["run under settings.STRICT", "right password after a wrong one, same parser", "cross-reference table unusable (body scan)", "V1R2 RC4-40", "V2R3 RC4", "V4R4 V2", "V4R4 AESV2", "V4R4 Identity", "V5R5 AESV3", "V5R6 AESV3", "owner password differs", "empty user password", "non-ASCII password", "long password", "no ID", "EncryptMetadata false", "object stream", "generation > 0", "object number above 65535", "string inside stream dictionary", "eviction happened", "wrong password non-Latin-1", "two encrypted documents read alternately"]
 TIERS = {
     "quick": {"batches": 16, "runs": 400, "budget_s": 50},
     "thorough": {"batches": 128, "runs": 500, "budget_s": 1200},
@@ -197,6 +197,23 @@ def wrong_passwords(t, cfg, ctx):
 
 
 def run(tape, ctx, item=None):
+    # the library's strict setting is a knob of the run: well-formed input reads the same under it
+    if tape.coin(8, 100, "knob.strict"):
+        from pdfminer import settings as _settings
+
+        ctx.probe("run under settings.STRICT")
+        _settings.STRICT = True
+        try:
+            out = run_inner(tape, ctx, item)
+        finally:
+            _settings.STRICT = False
+        for d in out.devs:
+            d.msg = "under settings.STRICT: " + d.msg
+        return out
+    return run_inner(tape, ctx, item)
+
+
+def run_inner(tape, ctx, item=None):
     t = tape
     devs = []
     objects, gens = build_plain(t, ctx)
